@@ -176,7 +176,7 @@ def h_tasks(ctx, prog):
   ctx.witness('done')
 
 
-def h_timer(ctx, recurring, cancel_after):
+def h_timer(ctx, recurring, cancel_after, start='now', absolute=False):
   R, s, clock, fs = make_sched(ctx, budget=0)
   fires = []
   iv = ctx.int('interval', 1, 5000)
@@ -188,7 +188,20 @@ def h_timer(ctx, recurring, cancel_after):
       if cancel_after == 'return_false' and len(fires) == 2: return False
       if cancel_after == 'returns_falsy':            # only the literal False stops a self-stoppable timer: 0, 0.0, '', None, [] do not
         return [0, 0.0, '', None, []][len(fires) % 5]
-    tm = R.Timer(iv, cb, recurring=recurring, scheduler=s)
+    if start == 'now' and not absolute:
+      tm = R.Timer(iv, cb, recurring=recurring, scheduler=s)
+    else:
+      # built first, started later (started=False ... .start()), and/or an absolute wake-up time: the delay of a relative timer counts
+      # from start(), an absolute one fires at its instant however late it is started
+      built = clock.now
+      tm = R.Timer((built + iv) if absolute else iv, cb, absoluteTime=absolute, recurring=recurring, scheduler=s, started=(start == 'now'))
+      if start != 'now':
+        gap = ctx.int('gap', 0, 10000)
+        clock.now = clock.now + gap
+        ctx.check('a timer that was not started does not fire', fires == [] and drive(s, 3) is True and fires == [])
+        tm.start(s)
+        if gap > iv: ctx.witness('started-after-interval')
+      t0 = built if absolute else clock.now
     if cancel_after == 'cancel_before':
       tm.cancel()
     for _ in range(40):
@@ -300,12 +313,15 @@ def obligations(tier):
   if thorough: pairs += [(a, b) for a in range(10) for b in range(10) if a > b]
   for a, b in pairs: progs.append((singles[a], singles[b]))
   timers = [dict(recurring=False, cancel_after='never'), dict(recurring=False, cancel_after='cancel_before'), dict(recurring=True, cancel_after='never'),
-            dict(recurring=True, cancel_after='return_false'), dict(recurring=True, cancel_after='cancel_at_3'), dict(recurring=True, cancel_after='returns_falsy')]
+            dict(recurring=True, cancel_after='return_false'), dict(recurring=True, cancel_after='cancel_at_3'), dict(recurring=True, cancel_after='returns_falsy'),
+            dict(recurring=False, cancel_after='never', start='deferred'), dict(recurring=True, cancel_after='cancel_at_3', start='deferred'),
+            dict(recurring=False, cancel_after='never', absolute=True), dict(recurring=False, cancel_after='never', start='deferred', absolute=True),
+            dict(recurring=False, cancel_after='cancel_before', start='deferred')]
   sub = [dict(depth=1, ops=['']), dict(depth=1, ops=['b']), dict(depth=2, ops=['', '']), dict(depth=2, ops=['b', 'a']), dict(depth=2, ops=['a', 'b']),
          dict(depth=3, ops=['', 'b', '']), dict(depth=3, ops=['ba', '', 'b']), dict(depth=2, ops=['b', 'b'], siblings=True)]
   if thorough: sub += [dict(depth=3, ops=['a', 'ba', 'a']), dict(depth=4, ops=['', 'b', 'a', '']), dict(depth=3, ops=['b', '', 'a'], siblings=True)]
   BOUNDS[tier] = dict(subtask_chains=[(c['depth'], c['ops'], c.get('siblings', False)) for c in sub], task_programs=len(progs), yields_per_task="2..3 from %s" % KINDS, durations="1..5000 ms symbolic", clock_advance="symbolic per select call",
-                      ready_sets="symbolic per select call (first 6 calls)", timers=[(t['recurring'], t['cancel_after']) for t in timers])
+                      ready_sets="symbolic per select call (first 6 calls)", timers=[(t['recurring'], t['cancel_after'], t.get('start', 'now'), 'absolute' if t.get('absolute') else 'relative') for t in timers])
   return [
     Obligation('O1_tasks', h_tasks, [dict(prog=p) for p in progs], witnesses=('done',), max_decisions=20000, mode='int',
                desc='execution trace of task programs under symbolic time / readiness'),
